@@ -16,6 +16,7 @@ import (
 )
 
 func TestMain(m *testing.M) {
+	gen.HugeVectors = true
 	vt.OnExit(drive.Cleanup)
 	vt.Main(m, "C03")
 }
